@@ -580,3 +580,69 @@ def inline_locals(fn_node: ast.AST, expr: ast.expr, depth: int = 4) -> ast.expr:
         for ch in ast.iter_child_nodes(sub):
             ch._parent = sub  # type: ignore[attr-defined]
     return out
+
+
+# ------------------------------------------------------------------------------------------- per-return influence
+
+
+def per_return_ignored(fn: Func) -> list[tuple[ast.Return, set[str]]]:
+    """For every `return <expr>` of a function: the parameters that reach *some* returned value of the function but neither this
+    one nor the conditions under which this return is taken.  A parameter may legitimately be ignored on a path that was selected
+    by looking at it (`if months == 0: return date`); being ignored on a path selected by *other* parameters means its value is
+    silently dropped there."""
+    node = fn.node
+    if isinstance(node, ast.Lambda):
+        return []
+    params = {a.arg for a in fn.value_params}
+    defs: dict[str, set[str]] = {}
+    for n in own_nodes(node):
+        tg: list[ast.expr] = []
+        val = None
+        if isinstance(n, ast.Assign):
+            tg, val = list(n.targets), n.value
+        elif isinstance(n, (ast.AnnAssign, ast.AugAssign)) and getattr(n, "value", None) is not None:
+            tg, val = [n.target], n.value
+        elif isinstance(n, ast.NamedExpr):
+            tg, val = [n.target], n.value
+        for t in tg:
+            for x in ast.walk(t):
+                if isinstance(x, ast.Name) and val is not None:
+                    defs.setdefault(x.id, set()).update(names_in(val))
+
+    def closure(names: set[str]) -> set[str]:
+        seen = set(names)
+        work = list(names)
+        while work:
+            x = work.pop()
+            for s in defs.get(x, ()):
+                if s not in seen:
+                    seen.add(s)
+                    work.append(s)
+        return seen
+
+    rets = [n for n in own_nodes(node) if isinstance(n, ast.Return) and n.value is not None]
+    infl = {id(r): closure(names_in(r.value)) & params for r in rets}
+    all_infl: set[str] = set().union(*infl.values()) if infl else set()
+    out = []
+    for r in rets:
+        cond: set[str] = set()
+        cur: ast.AST = r
+        while cur is not node:
+            par = getattr(cur, "_parent", None)
+            if par is None:
+                break
+            if isinstance(par, (ast.If, ast.While)):
+                cond |= closure(names_in(par.test))
+            if isinstance(par, ast.Match):
+                cond |= closure(names_in(par.subject))
+            for fld in ("body", "orelse", "finalbody"):
+                blk = getattr(par, fld, None)
+                if isinstance(blk, list) and any(cur is s for s in blk):
+                    idx = next(i for i, s in enumerate(blk) if s is cur)
+                    for s in blk[:idx]:
+                        if isinstance(s, ast.If) and any(isinstance(x, (ast.Return, ast.Raise)) for b in s.body + s.orelse for x in ast.walk(b)):
+                            cond |= closure(names_in(s.test))
+            cur = par
+        ignored = all_infl - infl[id(r)] - cond
+        out.append((r, ignored))
+    return out
